@@ -15,14 +15,21 @@ OUT = os.path.join(HERE, "..", "controls")
 C = {}
 
 
+def mk_edit(e):
+    d = dict(file=e[0], old=e[1], new=e[2])
+    if len(e) == 5:
+        d["nth"], d["of"] = e[3], e[4]
+    return d
+
+
 def pos(prop, name, why, edits, expect):
     C.setdefault(prop, []).append(dict(name=name, kind="positive", why=why,
-                                       edits=[dict(file=f, old=o, new=n) for f, o, n in edits], expect=expect))
+                                       edits=[mk_edit(e) for e in edits], expect=expect))
 
 
 def neg(prop, name, why, edits):
     C.setdefault(prop, []).append(dict(name=name, kind="negative", why=why,
-                                       edits=[dict(file=f, old=o, new=n) for f, o, n in edits]))
+                                       edits=[mk_edit(e) for e in edits]))
 
 
 PROC = "service/process.go"
@@ -1099,11 +1106,203 @@ func isEOF(err error) bool {""")])
 neg("C14", "neg-processor-commit-local", "processor commits through a local ring variable",
     [(PROC, "		_, err = p.in.ReadCommit(total)\n		if err != nil {\n			if !isEOF(err) {", "		in := p.in\n		_, err = in.ReadCommit(total)\n		if err != nil {\n			if !isEOF(err) {")])
 
+# ---------------------------------------------------------------- C16
+pos("C16", "teardown-joins-before-closing-rings", "teardown waits for goroutines that are only released by closing the rings",
+    [(SVC, "	svc.in.Close()\n	svc.out.Close()\n\n	// Wait for all the goroutines to stop.\n	svc.wgStopped.Wait()\n", "	// Wait for all the goroutines to stop.\n	svc.wgStopped.Wait()\n\n	svc.in.Close()\n	svc.out.Close()\n")],
+    ["C16/P5-order/teardown:in-ring-close-before-join"])
+pos("C16", "processor-done-after-teardown", "the processor calls teardown before signalling that it stopped: teardown joins itself",
+    [(PROC, "		p.wgStopped.Done()\n		p.stop()\n", "		p.stop()\n		p.wgStopped.Done()\n")],
+    ["C16/P5-order/start:go#1(processor):done-before-teardown"])
+pos("C16", "sender-started-without-add", "the join does not wait for the sender",
+    [(SVC, "	svc.wgStarted.Add(1)\n	svc.wgStopped.Add(1)\n	go svc.sender()", "	svc.wgStarted.Add(1)\n	go svc.sender()")],
+    ["C16/P7-goroutine-entry/start:go#3(sender):add-before-go"])
+pos("C16", "teardown-runs-twice", "the once-guard is gone: processor exit and Server.Close both tear down",
+    [(SVC, "	if !doit {\n		return\n	}\n", "	_ = doit\n")],
+    ["C16/P5-order/teardown:once-guard-loser-returns"])
+pos("C16", "writer-sleeps-under-wmu", "a blocking call is made while the write mutex is held",
+    [(SR, "	buf, wrap, err = svc.out.WriteWait(l)\n	if err != nil {\n		return 0, err\n	}\n", "	buf, wrap, err = svc.out.WriteWait(l)\n	if err != nil {\n		return 0, err\n	}\n	<-svc.done\n")],
+    ["C16/L6-no-blocking-under-lock/"])
+pos("C16", "server-close-skips-services", "Server.Close leaves the connections running",
+    [(SRV, "	for _, svc := range svcs {\n		log.Tracef(\"Stopping service: %d\", svc.id)\n		svc.stop()\n	}\n", "	for _, svc := range svcs {\n		log.Tracef(\"Stopping service: %d\", svc.id)\n	}\n")],
+    ["C16/P4-loop-contract/Server.Close:stops-every-service"])
+neg("C16", "neg-teardown-close-helper", "the closes extracted into a helper called before the join",
+    [(SVC, """	// Close the network connection
+	if svc.conn != nil {
+		log.Tracef("(%s) Closing connection", svc.cid())
+		svc.conn.Close()
+	}
+
+	svc.in.Close()
+	svc.out.Close()
+""", """	svc.closeEverything()
+"""),
+     (SVC, "func (svc *service) isDone() bool {", """func (svc *service) closeEverything() {
+	// Close the network connection
+	if svc.conn != nil {
+		log.Tracef("(%s) Closing connection", svc.cid())
+		svc.conn.Close()
+	}
+
+	svc.in.Close()
+	svc.out.Close()
+}
+
+func (svc *service) isDone() bool {""")])
+neg("C16", "neg-once-guard-positive-form", "once-guard written positively",
+    [(SVC, "	doit := atomic.CompareAndSwapInt64(&svc.closed, 0, 1)\n	if !doit {\n		return\n	}\n", "	if swapped := atomic.CompareAndSwapInt64(&svc.closed, 0, 1); swapped == false {\n		return\n	}\n")])
+neg("C16", "neg-start-add-grouped", "both wait groups incremented for all three goroutines up front",
+    [(SVC, """	svc.wgStarted.Add(1)
+	svc.wgStopped.Add(1)
+	go svc.processor()
+
+	// Receiver is responsible for reading from the connection and putting data into
+	// a buffer.
+	svc.wgStarted.Add(1)
+	svc.wgStopped.Add(1)
+	go svc.receiver()
+
+	// Sender is responsible for writing data in the buffer into the connection.
+	svc.wgStarted.Add(1)
+	svc.wgStopped.Add(1)
+	go svc.sender()
+""", """	svc.wgStarted.Add(3)
+	svc.wgStopped.Add(3)
+	go svc.processor()
+
+	// Receiver is responsible for reading from the connection and putting data into
+	// a buffer.
+	go svc.receiver()
+
+	// Sender is responsible for writing data in the buffer into the connection.
+	go svc.sender()
+""")])
+neg("C16", "neg-server-close-index-loop", "Server.Close stops the services in an index loop",
+    [(SRV, "	for _, svc := range svcs {\n		log.Tracef(\"Stopping service: %d\", svc.id)\n		svc.stop()\n	}\n", "	for i := 0; i < len(svcs); i++ {\n		log.Tracef(\"Stopping service: %d\", svcs[i].id)\n		svcs[i].stop()\n	}\n")])
+
+# ---------------------------------------------------------------- C17
+pos("C17", "second-processor", "two processors handle the packets of one connection",
+    [(SVC, "	svc.wgStarted.Add(1)\n	svc.wgStopped.Add(1)\n	go svc.processor()\n", "	svc.wgStarted.Add(2)\n	svc.wgStopped.Add(2)\n	go svc.processor()\n	go svc.processor()\n")],
+    ["C17/P7-goroutine-entry/one-processor-goroutine-per-connection"])
+pos("C17", "fanout-in-goroutines", "each delivery runs in its own goroutine: messages of one publisher overtake each other",
+    [(PROC, "			if err := (*fn)(msg); err != nil {\n				log.Warningf(\"%v\", err)\n			}\n		}\n	}\n\n	return nil\n}", "			go (*fn)(msg)\n		}\n	}\n\n	return nil\n}")],
+    ["C17/P7-goroutine-entry/no-goroutine-spawned-while-handling-a-packet"])
+pos("C17", "wrap-path-writes-whole-scratch", "the wrap path copies the whole scratch buffer",
+    [(SR, "		m, err = svc.out.Write(svc.outtmp[0:n])", "		m, err = svc.out.Write(svc.outtmp)")],
+    ["C17/L7-critical-span/writeMessage:wrap-path-writes-what-was-encoded"])
+pos("C17", "writer-unlocks-before-commit", "the write mutex is released between encode and commit",
+    [(SR, "		m, err = svc.out.WriteCommit(n)\n		if err != nil {\n			return 0, err\n		}", "		svc.wmu.Unlock()\n		m, err = svc.out.WriteCommit(n)\n		svc.wmu.Lock()\n		if err != nil {\n			return 0, err\n		}")],
+    ["C17/L7-critical-span/writeMessage:buffer.WriteCommit-under-wmu"])
+neg("C17", "neg-writer-renamed", "packet writer with renamed locals and reordered declarations",
+    [(SR, "	var (\n		l    int = msg.Len()\n		m, n int\n		err  error\n		buf  []byte\n		wrap bool\n	)\n\n	if svc.out == nil {", "	var (\n		m, n int\n		err  error\n		buf  []byte\n		wrap bool\n	)\n	l := msg.Len()\n\n	if svc.out == nil {")])
+
+# ---------------------------------------------------------------- C18
+pos("C18", "stat-read-plainly", "an atomically updated counter is read without atomic",
+    [(SVC, "atomic.LoadInt64(&svc.inStat.bytes), atomic.LoadInt64(&svc.inStat.msgs))", "svc.inStat.bytes, atomic.LoadInt64(&svc.inStat.msgs))")],
+    ["C18/G2-atomic-consistency/"])
+pos("C18", "server-close-without-lock", "the fix of 63fa5a9 undone",
+    [(SRV, "	svr.mu.Lock()\n	svcs := make([]*service, len(svr.svcs))\n	copy(svcs, svr.svcs)\n	svr.mu.Unlock()\n", "	svcs := make([]*service, len(svr.svcs))\n	copy(svcs, svr.svcs)\n")],
+    ["C18/G1-guarded-by/service.Server.svcs"])
+pos("C18", "session-topics-without-lock", "Session.Topics iterates the map without the session lock",
+    [(SESS, "func (s *Session) Topics() ([]string, []byte, error) {\n	s.mu.Lock()\n	defer s.mu.Unlock()\n", "func (s *Session) Topics() ([]string, []byte, error) {\n")],
+    ["C18/G1-guarded-by/sessions.Session.topics"])
+pos("C18", "topics-registry-without-lock", "the fix of 2a3c59c undone at one site",
+    [("topics/topics.go", "func Unregister(name string) {\n	providersMu.Lock()\n	defer providersMu.Unlock()\n", "func Unregister(name string) {\n")],
+    ["C18/G8-unguarded-global/topics.providers"])
+pos("C18", "teardown-nils-shared-ring", "the fix of 64425c9 undone",
+    [(SVC, "	// conn, in and out are deliberately left in place", "	svc.out = nil\n	// conn, in and out are deliberately left in place")],
+    ["C18/G"])
+neg("C18", "neg-stat-load-locals", "statistics loaded atomically into locals first",
+    [(SVC, "	log.Debugf(\"(%s) Received %d bytes in %d messages\", svc.cid(), atomic.LoadInt64(&svc.inStat.bytes), atomic.LoadInt64(&svc.inStat.msgs))", "	inBytes, inMsgs := atomic.LoadInt64(&svc.inStat.bytes), atomic.LoadInt64(&svc.inStat.msgs)\n	log.Debugf(\"(%s) Received %d bytes in %d messages\", svc.cid(), inBytes, inMsgs)")])
+neg("C18", "neg-server-close-append-copy", "Server.Close snapshots with append",
+    [(SRV, "	svr.mu.Lock()\n	svcs := make([]*service, len(svr.svcs))\n	copy(svcs, svr.svcs)\n	svr.mu.Unlock()\n", "	svr.mu.Lock()\n	svcs := append([]*service(nil), svr.svcs...)\n	svr.mu.Unlock()\n")])
+neg("C18", "neg-session-topics-explicit-unlock", "Session.RemoveTopic with explicit unlocks",
+    [(SESS, "func (s *Session) RemoveTopic(topic string) error {\n	s.mu.Lock()\n	defer s.mu.Unlock()\n\n	if !s.initted {\n		return fmt.Errorf(\"Session not yet initialized\")\n	}\n\n	delete(s.topics, topic)\n\n	return nil\n}",
+      "func (s *Session) RemoveTopic(topic string) error {\n	s.mu.Lock()\n	if !s.initted {\n		s.mu.Unlock()\n		return fmt.Errorf(\"Session not yet initialized\")\n	}\n	delete(s.topics, topic)\n	s.mu.Unlock()\n\n	return nil\n}")])
+
+# ---------------------------------------------------------------- C19
+pos("C19", "deadline-twice-keepalive", "the read deadline is 2 x keep-alive",
+    [(SR, "			d:    keepAlive + (keepAlive / 5),", "			d:    keepAlive + keepAlive,")],
+    ["C19/B8-deadline-factor/receiver:deadline-factor"])
+pos("C19", "deadline-not-rearmed", "the deadline is set once when the reader is created, not before every read",
+    [(SR, "	if err := r.conn.SetReadDeadline(time.Now().Add(r.d)); err != nil {\n		return 0, err\n	}\n	return r.conn.Read(b)", "	return r.conn.Read(b)")],
+    ["C19/P"])
+pos("C19", "receiver-reads-raw-connection", "the receiver pumps from the connection without the deadline reader",
+    [(SR, "			_, err := svc.in.ReadFrom(r)\n", "			_ = r\n			_, err := svc.in.ReadFrom(conn)\n")],
+    ["C19/P9-who-may/receiver:pumps-from-deadline-reader"])
+pos("C19", "pingreq-unanswered", "PINGREQ is not answered",
+    [(PROC, "		resp := message.NewPingrespMessage()\n		_, err = p.writeMessage(resp)\n", "		resp := message.NewPingrespMessage()\n		_ = resp\n")],
+    ["C19/P2-case-contract/PINGREQ:must(writePINGRESP)"])
+pos("C19", "zero-keepalive-kept", "keep-alive 0 gives a zero read deadline: the connection is dropped at once",
+    [(SRV, "	if req.KeepAlive() == 0 {\n		req.SetKeepAlive(minKeepAlive)\n	}\n", "")],
+    ["C19/P8-guard-contract/accept:zero-keepalive-replaced"])
+neg("C19", "neg-deadline-factor-form", "deadline factor written as keepAlive * 6 / 5",
+    [(SR, "			d:    keepAlive + (keepAlive / 5),", "			d:    keepAlive * 6 / 5,")])
+neg("C19", "neg-deadline-reader-pointer", "the deadline reader used through a pointer with the deadline in a local",
+    [(SR, "	if err := r.conn.SetReadDeadline(time.Now().Add(r.d)); err != nil {\n		return 0, err\n	}\n	return r.conn.Read(b)", "	deadline := time.Now().Add(r.d)\n	err := r.conn.SetReadDeadline(deadline)\n	if err != nil {\n		return 0, err\n	}\n	n, err := r.conn.Read(b)\n	return n, err")])
+neg("C19", "neg-zero-keepalive-local", "zero keep-alive replaced through a local",
+    [(SRV, "	if req.KeepAlive() == 0 {\n		req.SetKeepAlive(minKeepAlive)\n	}\n", "	ka := req.KeepAlive()\n	if ka == 0 {\n		req.SetKeepAlive(minKeepAlive)\n	}\n")])
+
+# ---------------------------------------------------------------- C20
+REFUSAL = "	if resp.ReturnCode() != message.ConnectionAccepted {\n		return resp.ReturnCode()\n	}\n"
+pos("C20", "client-starts-after-refusal", "a refused CONNECT still starts the client service",
+    [(CLI, REFUSAL, "	if resp.ReturnCode() != message.ConnectionAccepted {\n		log.Warningf(\"refused: %v\", resp.ReturnCode())\n	}\n", 1, 2)],
+    ["C20/P8-guard-contract/Connect"])
+pos("C20", "client-subscribe-ignores-failure-code", "a filter the server refused (0x80) is registered locally",
+    [(SVC, "			if c == message.QosFailure {\n				err2 = fmt.Errorf(\"Failed to subscribe to '%s'\\n%v\", string(t), err2)\n			} else {", "			if c == message.QosFailure {\n				err2 = fmt.Errorf(\"Failed to subscribe to '%s'\\n%v\", string(t), err2)\n			}\n			{")],
+    ["C20/P4-loop-contract/client-subscribe:registers-each-granted-filter"])
+pos("C20", "framing-single-read", "the packet body is read with one Read call",
+    [(MISC, "	for l < len(buf) {\n		n, err := conn.Read(buf[l:])\n		if err != nil {\n			return nil, err\n		}\n		l += n\n	}\n", "	if l < len(buf) {\n		n, err := conn.Read(buf[l:])\n		if err != nil {\n			return nil, err\n		}\n		l += n\n	}\n")],
+    ["C20/P4-loop-contract/getMessageBuffer:read#2-repeated-until-complete"])
+pos("C20", "client-qos1-handover-before-puback", "hand-over before the PUBACK",
+    [(PROC, "		if _, err := p.writeMessage(resp); err != nil {\n			return err\n		}\n\n		return p.onPublish(msg)\n", "		if err := p.onPublish(msg); err != nil {\n			return err\n		}\n\n		_, err := p.writeMessage(resp)\n		return err\n")],
+    ["C20/P2-case-contract/PUBLISH/QoS1:order(writePUBACK<hand-over)"])
+neg("C20", "neg-client-refusal-local", "refusal code through a local",
+    [(CLI, REFUSAL, "	if code := resp.ReturnCode(); code != message.ConnectionAccepted {\n		return code\n	}\n", 1, 2)])
+neg("C20", "neg-framing-readfull", "the packet body is read with io.ReadFull",
+    [(MISC, "	for l < len(buf) {\n		n, err := conn.Read(buf[l:])\n		if err != nil {\n			return nil, err\n		}\n		l += n\n	}\n", "	if _, err := io.ReadFull(conn, buf[l:]); err != nil {\n		return nil, err\n	}\n")])
+neg("C20", "neg-client-subscribe-continue", "client SUBACK loop with continue",
+    [(SVC, "			if c == message.QosFailure {\n				err2 = fmt.Errorf(\"Failed to subscribe to '%s'\\n%v\", string(t), err2)\n			} else {\n				svc.sess.AddTopic(string(t), c)\n				_, err := svc.topicsMgr.Subscribe(t, c, &onPublish)\n				if err != nil {\n					err2 = fmt.Errorf(\"Failed to subscribe to '%s' (%v)\\n%v\", string(t), err, err2)\n				}\n			}",
+      "			if c == message.QosFailure {\n				err2 = fmt.Errorf(\"Failed to subscribe to '%s'\\n%v\", string(t), err2)\n				continue\n			}\n			svc.sess.AddTopic(string(t), c)\n			if _, err := svc.topicsMgr.Subscribe(t, c, &onPublish); err != nil {\n				err2 = fmt.Errorf(\"Failed to subscribe to '%s' (%v)\\n%v\", string(t), err, err2)\n			}")])
+
+# C06 level structure (T9)
+pos("C06", "hash-does-not-cover-parent", "the fix of 28096fa undone",
+    [(MT, "		if n, ok := sn.snodes[MWC]; ok {\n			n.matchQos(qos, subs, qoss)\n		}\n		return nil", "		return nil")],
+    ["C06/T9-level-structure/smatch:multi-level-wildcard-covers-parent"])
+pos("C06", "smatch-ends-on-empty-remainder", "the fix of 13eb4d8 undone in the subscription match",
+    [(MT, "func (sn *snode) smatch(topic []byte, qos byte, subs *[]interface{}, qoss *[]byte) error {\n	// If the topic is empty, it means we are at the final matching snode. If so,\n	// let's find the subscribers that match the qos and append them to the list.\n	if topic == nil {",
+      "func (sn *snode) smatch(topic []byte, qos byte, subs *[]interface{}, qoss *[]byte) error {\n	// If the topic is empty, it means we are at the final matching snode. If so,\n	// let's find the subscribers that match the qos and append them to the list.\n	if len(topic) == 0 {")],
+    ["C06/T9-level-structure/smatch:end-of-levels-signal-unambiguous"])
+neg("C06", "neg-hash-child-local", "the '#' child looked up into a local before the node's own subscribers",
+    [(MT, "		sn.matchQos(qos, subs, qoss)\n		// The multi-level wildcard also matches its parent level: \"sport/#\"\n		// receives a publish to \"sport\" (MQTT-4.7.1-2).\n		if n, ok := sn.snodes[MWC]; ok {\n			n.matchQos(qos, subs, qoss)\n		}\n		return nil",
+      "		hash, hasHash := sn.snodes[MWC]\n		if hasHash {\n			hash.matchQos(qos, subs, qoss)\n		}\n		sn.matchQos(qos, subs, qoss)\n		return nil")])
+
+neg("C06", "neg-hash-child-range", "the '#' child found by ranging over the children",
+    [(MT, "		if n, ok := sn.snodes[MWC]; ok {\n			n.matchQos(qos, subs, qoss)\n		}\n		return nil",
+      "		for k, n := range sn.snodes {\n			if k == MWC {\n				n.matchQos(qos, subs, qoss)\n			}\n		}\n		return nil")])
+
+# ---------------------------------------------------------------- C04 (additions to the hand-written file)
+pos("C04", "engine-probe-loop-entry-value", "a loop index that starts at -1 and is used before the increment: candidate invariants must hold on the entry edge",
+    [("message/disconnect.go", "func (m *DisconnectMessage) Decode(src []byte) (int, error) {\n	return m.header.decode(src)",
+      "func zzProbe(src []byte) byte {\n	i := -1\n	var x byte\n	for k := 0; k < 3; k++ {\n		if i < len(src) {\n			x = src[i]\n		}\n		i++\n	}\n	return x\n}\n\nfunc (m *DisconnectMessage) Decode(src []byte) (int, error) {\n	_ = zzProbe(src)\n	return m.header.decode(src)")],
+    ["C04/B1-in-bounds/message.zzProbe:index"])
+pos("C04", "engine-probe-range-off-by-one", "a range loop that reads one element past the index",
+    [("message/suback.go", "	for i, code := range m.returnCodes {\n		if code != 0x00 && code != 0x01 && code != 0x02 && code != 0x80 {\n			return total, fmt.Errorf(\"suback/Decode: Invalid return code %d for topic %d\", code, i)",
+      "	for i := range m.returnCodes {\n		code := m.returnCodes[i+1]\n		if code != 0x00 && code != 0x01 && code != 0x02 && code != 0x80 {\n			return total, fmt.Errorf(\"suback/Decode: Invalid return code %d for topic %d\", code, i)")],
+    ["C04/B1-in-bounds/(*message.SubackMessage).Decode:index"])
+neg("C04", "neg-suback-index-loop", "SUBACK code validation as an index loop",
+    [("message/suback.go", "	for i, code := range m.returnCodes {\n		if code != 0x00 && code != 0x01 && code != 0x02 && code != 0x80 {\n			return total, fmt.Errorf(\"suback/Decode: Invalid return code %d for topic %d\", code, i)",
+      "	for i := 0; i < len(m.returnCodes); i++ {\n		code := m.returnCodes[i]\n		if code != 0x00 && code != 0x01 && code != 0x02 && code != 0x80 {\n			return total, fmt.Errorf(\"suback/Decode: Invalid return code %d for topic %d\", code, i)")])
+
 
 def main():
     os.makedirs(OUT, exist_ok=True)
     for prop, cs in sorted(C.items()):
-        with open(os.path.join(OUT, prop + ".json"), "w") as f:
+        path = os.path.join(OUT, prop + ".json")
+        if prop in ("C04", "C15") and os.path.exists(path):
+            # these two files were written by hand first: keep their controls, add the generated ones
+            names = {c["name"] for c in cs}
+            cs = [c for c in json.load(open(path)) if c["name"] not in names] + cs
+        with open(path, "w") as f:
             json.dump(cs, f, indent=1)
             f.write("\n")
         print(prop, len(cs), "controls")
